@@ -468,6 +468,12 @@ pub fn analyse(rep: &RunReport) -> Verdict {
                             v(&mut out, "C13", "ran_while_suspended", &[sid, b.id], sb, format!("{} {} (scheduled after suspend {}) started before the queue was resumed", b.tag, b.id, sid));
                         }
                     }
+                } else if let Some(sb) = b.start {
+                    // scheduled while the suspend request itself was being made: it counts as before the suspension (and is over when
+                    // the suspension is reported) or as after it (and waits for the resumer), but it cannot start in between
+                    if sb > t_s && !hr.resumed_at.map_or(false, |ra| sb > ra) {
+                        v(&mut out, "C13", "started_inside_suspension", &[sid, b.id], sb, format!("{} {} started on object {} after suspend {} had been reported as reached and before the queue was resumed", b.tag, b.id, o, sid));
+                    }
                 }
             }
         }
@@ -1104,13 +1110,14 @@ fn blame_hang(rep: &RunReport, live: Live, out: &mut Vec<Violation>, verdict: &m
             }
             // one context, no pool thread: whatever it awaits it runs itself, so an await that makes no progress is a
             // violation unless the operation is legitimately suspended (gate closed) or held by an unreleased suspension
-            if live == Live::SingleContext && matches!(hr.kind, Kind::FutureDesync | Kind::After) && r.fin.is_none() && hr.resolved_at.is_none() {
+            if live == Live::SingleContext && matches!(hr.kind, Kind::FutureDesync | Kind::After | Kind::FutureSync) && r.fin.is_none() && hr.resolved_at.is_none() {
                 let o = r.obj.unwrap_or(0);
                 let held = world.hrec.iter().any(|s| s.kind == Kind::Suspend && s.op.map_or(false, |sid| ops[sid as usize].obj == Some(o)) && s.resolved_at.is_some() && s.resumed_at.is_none());
                 let gate_closed = ops.iter().any(|x| x.obj == Some(o) && x.start.is_some() && x.fin.is_none() && x.waiting_gate.map_or(false, |g| !world.gates[g].open && x.waiting_gate_alt.map_or(true, |g2| !world.gates[g2].open)));
                 if !held && !gate_closed {
                     let qstate = facts.queue_peeks.iter().find(|p| p.0 == o).and_then(|p| p.1).map(|p| p.0);
-                    v(out, "C07", "awaiting_made_no_progress", &[opid], 0, format!("the only context awaits handle {} of {} {} on object {} (queue state tag {:?}) with no pool thread, and nothing runs the queue: {}", h, r.tag, opid, o, qstate, where_));
+                    let prop = if hr.kind == Kind::FutureSync { "C08" } else { "C07" };
+                    v(out, prop, "awaiting_made_no_progress", &[opid], 0, format!("the only context awaits handle {} of {} {} on object {} (queue state tag {:?}) with no pool thread, and nothing runs the queue: {}", h, r.tag, opid, o, qstate, where_));
                     let resumed = world.hrec.iter().any(|s| s.kind == Kind::Suspend && s.op.map_or(false, |sid| ops[sid as usize].obj == Some(o)) && s.resumed_at.is_some());
                     if resumed && matches!(qstate, Some(3) | Some(4) | Some(5)) {
                         v(out, "C06", "resume_did_not_restart_queue", &[opid], 0, format!("object {} was suspended and resumed, but its queue is still parked (state tag {:?}) and nothing runs what is queued behind the suspension: {}", o, qstate, where_));
